@@ -109,7 +109,7 @@ Lemma unsol_retry_identical_inv cfg h s resp n rt dl s1 o1 :
 Proof.
   intros Hinv Hc Hrt Hd H Y. unfold fire_deadline in H. rewrite Hc, Hd in H.
   assert (Hcan : match rt with None => true | Some 0%nat => false | Some (S _) => true end = true).
-  { destruct rt as [[|k]|]; auto. congruence. }
+  { destruct rt as [[|k]|]; auto. }
   rewrite Hcan in H. cbn [andb] in H. inv_pair H.
   destruct Hinv as [[_ [B _]] _]. destruct (B _ _ _ _ Hc) as [B1 _].
   splits; auto. psimpl. eauto.
@@ -126,6 +126,6 @@ Theorem unsol_retry_identical cfg h s resp n rt dl t s1 o1 :
   exists rt' dl', s_control s1 = CUnsolWait resp n rt' dl'.
 Proof.
   intros HR Hc Hrt Hd H. apply reach_inv in HR.
-  apply (unsol_retry_identical_inv cfg h (upd_now s t) resp n rt dl s1 o1); auto.
-  apply inv_upd_now. exact HR.
+  apply (unsol_retry_identical_inv cfg h (upd_now s t) resp n rt dl s1 o1); try assumption.
+  all: try (apply inv_upd_now; exact HR).
 Qed.
